@@ -199,7 +199,28 @@ func (w *Workload) Step() error {
 		}
 		w.Record(b, err)
 		return err
+	case r < 95:
+		return w.DB.CompactRange(util.Range{})
 	case r < 96:
+		// wipe: delete every key, then compact everything - the compactions end with empty outputs, i.e. manifest
+		// edits that only delete tables (and the input files are removed right after)
+		n := w.U.N()
+		ops := make([][2]int, n)
+		vals := make([][]byte, n)
+		lb := new(leveldb.Batch)
+		for k := 0; k < n; k++ {
+			ops[k] = [2]int{k, 0}
+			lb.Delete(w.U.Key(k))
+		}
+		b := &Batch{Ops: ops, Vals: vals, Sync: true, Kind: "write", BeginOp: w.Stor.NOps()}
+		err := w.DB.Write(lb, &opt.WriteOptions{Sync: true})
+		w.Record(b, err)
+		if err != nil {
+			return err
+		}
+		if err := w.DB.CompactRange(util.Range{}); err != nil {
+			return err
+		}
 		return w.DB.CompactRange(util.Range{})
 	default:
 		// clean close + reopen inside the workload
